@@ -319,7 +319,17 @@ def mix_arcs(g, r, p):
             continue
         pair = (kind[a["in_port"]], kind[a["out_port"]])
         if pair in PULLED:
-            a["type_"] = "PullArc"
+            if pair[0] == "River" and r.random() < 0.5:
+                # an abstraction over a travel-time arc: what was pulled earlier arrives later (possibly when the reservoir is full)
+                a["type_"] = "QueueArc"
+                a["number_of_timesteps"] = r.choice([1, 1, 2])
+                # ... into a small, nearly full reservoir, so that the late parcel does arrive when it is full
+                dst = next(n for n in g.nodes if n["name"] == a["out_port"])
+                if r.random() < 0.7:
+                    dst["capacity"] = F(12)
+                    dst["initial_storage"] = g.vq(F(r.choice([8, 10, 12])))
+            else:
+                a["type_"] = "PullArc"
             continue
         if kind[a["in_port"]] in ("Reservoir", "FWTW", "Distribution", "UnlimitedDistribution", "Catchment"):
             continue        # pulled from / abstracted from: plain arcs
